@@ -4,6 +4,7 @@ from __future__ import annotations
 import ast
 from typing import Dict, Set
 
+from .. import AnalysisError
 from .common import expand_locals, R, seg
 from .c19 import term
 
@@ -141,7 +142,7 @@ def run(m, chk):
         "relative to the minimum); both components of the Newton iterate are clamped on both sides after every update; loops are counter-bounded; the duplicate filter is passed; curves are not modified. "
         "Completeness (every crossing is found) and accuracy are not decided."
     )
-    chk.decides = ["END-EXACT (the closed sample 0 .. 1 is mapped onto each parameter interval with an expression that is exact at both ends)", "RESIDUAL-DEGREE (the residual compared with 1e-6 is a distance, not a squared distance)", "ALL-COMPONENTS (the duplicate filter compares both parameters of a pair)", "PRECOND(non-empty)", "ABS-RESIDUAL", "CLAMP", "TERM", "must-pass-through(filter_pairs)", "PURE", "DEP-MAY (both curves, weights included)"]
+    chk.decides = ["STEP-APPLIED (the Newton iterate is returned only after the step computed for it has been applied)", "END-EXACT (the closed sample 0 .. 1 is mapped onto each parameter interval with an expression that is exact at both ends)", "RESIDUAL-DEGREE (the residual compared with 1e-6 is a distance, not a squared distance)", "ALL-COMPONENTS (the duplicate filter compares both parameters of a pair)", "PRECOND(non-empty)", "ABS-RESIDUAL", "CLAMP", "TERM", "must-pass-through(filter_pairs)", "PURE", "DEP-MAY (both curves, weights included)"]
     chk.not_decided = ["every crossing is found", "accuracy of the parameters"]
     # 0. the result depends on every field of both curves (weights included: a rational curve is not its control polygon)
     CC = "advanced.Intersection.curve_and_curve"
@@ -159,6 +160,12 @@ def run(m, chk):
 
     nee = end_exact(r, chk, ["advanced.Intersection.bcurve_and_bcurve"])
     chk.floor("END-EXACT", "maps of closed reference samples onto the parameter interval in bcurve_and_bcurve", nee, 2)
+    from .extra import step_applied
+
+    nq = next((q_ for q_ in r.A.roots if q_.endswith("newton_bcurve_and_bcurve")), None)
+    if nq is None:
+        raise AnalysisError("anchor vanished: the Newton iteration of bcurve_and_bcurve")
+    step_applied(r, chk, nq)
     # 1. callee precondition
     need = needs_nonempty(r, PMD)
     chk.floor("PRECOND", "parameters of pairs_min_distance reduced with min()", len(need), 1)
